@@ -176,6 +176,68 @@ func (x *Exec) nodeIP(name string) string {
 type ObsC03 struct {
 	Keeps, Releases int
 	ScaleOrDelete   bool
+	// ConcurrentExcess: sibling pods of an immutable deployment holding more IPs than replicas were unbound concurrently
+	ConcurrentExcess bool
+}
+
+// immutableFloor: an immutable deployment that exists with r > 0 replicas keeps min(IPs held, r) IPs over the unbinds of its deleted
+// pods ("release the exceeding part"), in whatever order - or overlap - the delete events are handled.
+func (o *ObsC03) immutableFloor(x *Exec, op Op) *vcore.Failure {
+	if op.K != "unbind" {
+		return nil
+	}
+	for _, sub := range x.CurSubs {
+		// part of an episode: only when nothing but delete events of pods is handled in it (an administrator's release or a
+		// reload running next to the unbind may take more away)
+		if canonKind(sub.K) != "unbind" {
+			return nil
+		}
+	}
+	if x.LastQuiescent == nil {
+		return nil
+	}
+	after := x.W.Snap()
+	for wi := range x.C.WLs {
+		wl := &x.C.WLs[wi]
+		if wl.Kind != "dp" || wl.Policy != "immutable" || wl.Pool != "" || len(wl.Ranges) > 0 || len(wl.AltRanges) > 0 {
+			continue
+		}
+		exists, r := x.W.WorkloadView(wl)
+		if !exists || r <= 0 {
+			continue
+		}
+		pre := poolPrefixOf(wl)
+		before, now, live := 0, 0, false
+		for ip, f := range x.LastQuiescent.Alloc {
+			if !strings.HasPrefix(f.Key, pre) || !inConfig(x.ConfInForce, ip) {
+				continue
+			}
+			before++
+			if a, ok := after.Alloc[ip]; ok && strings.HasPrefix(a.Key, pre) {
+				continue
+			}
+			if ko := putil.ParseKey(f.Key); ko.PodName != "" && !x.truthGone(ko.PodName) {
+				live = true // a live pod of that name lost it: C04's business
+			}
+		}
+		for ip, f := range after.Alloc {
+			if strings.HasPrefix(f.Key, pre) && inConfig(x.ConfInForce, ip) {
+				now++
+			}
+		}
+		if len(x.CurSubs) >= 2 && before > r {
+			o.ConcurrentExcess = true
+		}
+		floor := before
+		if r < floor {
+			floor = r
+		}
+		if !live && now < floor {
+			return vcore.Failf("c03:premature_release:immutable_floor", "immutable deployment %s (%d replicas) held %d IPs before %s and holds %d after: "+
+				"only the part exceeding the replicas may be released", wl.Name, r, before, map[bool]string{false: "the unbind", true: "the concurrent unbinds"}[len(x.CurSubs) >= 2], now)
+		}
+	}
+	return nil
 }
 
 func (o *ObsC03) AfterStep(x *Exec) *vcore.Failure { return nil }
@@ -254,6 +316,9 @@ func (o *ObsC03) AfterOp(x *Exec, i int, op Op, res *OpResult) *vcore.Failure {
 	switch op.K {
 	case "scale", "delwl", "mkwl":
 		o.ScaleOrDelete = true
+	}
+	if f := o.immutableFloor(x, op); f != nil {
+		return f
 	}
 	if x.C.Lag {
 		// the no-premature-release clause uses the view the code legitimately sees; with lagging pod listers the
@@ -392,6 +457,14 @@ type ObsC10 struct {
 	Moved     bool
 	ProvFail  bool
 	boundNode map[string]string
+	// dropped: IPs an administrator removed from the configuration while the provider had them assigned. The record is deleted
+	// without a provider call (that is what de-configuring an address in use means, and no clause of C10 speaks about it), so
+	// until IPAM holds a record for the address again - or assigns it afresh - provider and IPAM cannot agree about it.
+	// everDropped keeps them for the pod-side clause: the old holder may still run with the address.
+	dropped, everDropped map[string]bool
+	Dropped              bool
+	// lastHold: the (key, pod uid) last seen holding each IP; dropHold: the holder an IP was taken away from
+	lastHold, dropHold map[string][2]string
 }
 
 func (o *ObsC10) replay(x *Exec) *vcore.Failure {
@@ -408,7 +481,9 @@ func (o *ObsC10) replay(x *Exec) *vcore.Failure {
 			continue // failed cleanly: no effect
 		}
 		if c.Assign {
-			if cur := o.state[c.IP]; cur != "" && cur != c.Node {
+			if cur := o.state[c.IP]; cur != "" && cur != c.Node && o.dropped[c.IP] {
+				delete(o.dropped, c.IP) // assigned afresh after the administrator took it away from its holder
+			} else if cur != "" && cur != c.Node {
 				o.seen = len(calls)
 				return vcore.Failf("c10:double_assign", "provider call #%d assigns %s to node %s while it is still assigned to node %s", i, c.IP,
 					c.Node, cur)
@@ -432,9 +507,31 @@ func (o *ObsC10) check(x *Exec, quiescent bool) *vcore.Failure {
 	if !ok {
 		return nil
 	}
-	_ = alloc
+	if o.dropped == nil {
+		o.dropped, o.everDropped = map[string]bool{}, map[string]bool{}
+		o.lastHold, o.dropHold = map[string][2]string{}, map[string][2]string{}
+	}
+	for ip, n := range o.state {
+		if n != "" && !inConfig(x.ConfInForce, ip) && !o.dropped[ip] {
+			o.dropped[ip], o.everDropped[ip], o.Dropped = true, true, true
+			o.dropHold[ip] = o.lastHold[ip]
+		}
+	}
+	for ip := range o.dropped {
+		// the record of the very pod it was taken from is back (the pod-IP sync re-creates it): the ordinary rules apply again.
+		// A record for anybody else is a fresh allocation, whose first assignment meets the provider's left-over one
+		if f, held := alloc[ip]; held && [2]string{f.Key, f.PodUid} == o.dropHold[ip] && f.PodUid != "" {
+			delete(o.dropped, ip)
+		}
+	}
+	for ip, f := range alloc {
+		o.lastHold[ip] = [2]string{f.Key, f.PodUid}
+	}
 	if quiescent {
 		for ip := range unalloc {
+			if o.dropped[ip] {
+				continue
+			}
 			if n := o.state[ip]; n != "" && x.MixedKeys[x.LastKey[ip]] {
 				return vcore.Failf("c10:freed_while_assigned:stale_sync_mixed_uid", "IP %s is free in IPAM but the provider still has it "+
 					"assigned to node %s; its key %q also held an IP re-allocated for an older incarnation by the pod-IP sync of a stale "+
@@ -449,6 +546,9 @@ func (o *ObsC10) check(x *Exec, quiescent bool) *vcore.Failure {
 		for _, ip := range p.Payload {
 			if !inConfig(x.ConfInForce, ip) {
 				continue
+			}
+			if o.everDropped[ip] && alloc[ip].Key != p.Key {
+				continue // the address was taken away from this pod by the administrator and may serve somebody else now
 			}
 			if o.state[ip] != p.Node {
 				return vcore.Failf("c10:not_on_pod_node", "live pod %s is bound to node %s with IP %s but the provider has it on %q", p.Name,
